@@ -226,7 +226,7 @@ def run_case(case, policy):
     """run one case on the real code under the scheduler; returns (scheduler, observation dict)"""
     s = Scheduler(policy=policy, max_steps=5000)
     events, emitted, blocked, tabs, boundary = [], {}, [], [], {}
-    stat = {'bcast': 0, 'snap': 0, 'during': 0, 'after': 0}
+    stat = {'bcast': 0, 'snap': 0, 'during': 0, 'after': 0, 'dropped': 0}
     orig_block, orig_yield = s.block, s.yield_
 
     def yield_(label):
@@ -244,8 +244,17 @@ def run_case(case, policy):
     s.block = block
     with s.patched(frappy.modulebase, threading=s.threading, time=s.time, mkthread=s.mkthread), \
             s.patched(frappy.protocol.dispatcher, threading=s.threading, currenttime=s.time):
-        node = Node({mn: {'cls': M, 'description': mn} for mn in case['mods']}, omit_unchanged_within=0)
+        # unchanged values: `omit` lists the attributes configured with update_unchanged='never'; '*' gives every module an
+        # omit_unchanged_within far longer than the run (virtual time advances by microseconds); everything else: window 0
+        omit = case.get('omit', [])
+        mcfg = {'cls': M, 'description': 'x'}
+        mcfg.update({a: {'update_unchanged': 'never'} for a in omit if a != '*'})
+        if '*' in omit:
+            mcfg['omit_unchanged_within'] = 1000
+        node = Node({mn: dict(mcfg, description=mn) for mn in case['mods']}, omit_unchanged_within=0)
         info = Info(node)
+        omit_same = [[info.mid(mn), pobj.export] for mn in info.mods for pobj in node.modules[mn].parameters.values()
+                     if pobj.export and pobj.omit_unchanged_within > 0]
         _name(node.dispatcher._lock, 'disp')
         _name(getattr(node.dispatcher, '_subscription_lock', None), 'sub')
         for mn in info.mods:
@@ -328,6 +337,8 @@ def run_case(case, policy):
                     events.append(['emitDone', u])
                     completed()
                     emitted[u] = False
+                elif e[0] == 'v':
+                    stat['dropped'] += 1          # an unchanged value inside its omit window
             s.yield_(('end',))
 
         hs = sorted((int(c), scr) for c, scr in case['handlers'].items())
@@ -347,7 +358,8 @@ def run_case(case, policy):
     if result['aborted'] not in (None, 'deadlock'):
         raise RuntimeError(f'scheduler aborted ({result["aborted"]}) on case {json.dumps(case)}')
     setup = {'mods': [[mn, list(info.pars[mn])] for mn in info.mods],
-             'conns': sorted(conns), 'cache': cache0, 'logFails': sorted(conns) if case.get('broken_logging') else []}
+             'conns': sorted(conns), 'cache': cache0, 'logFails': sorted(conns) if case.get('broken_logging') else [],
+             'omitSame': omit_same}
     obs = {'events': events, 'cache': cache1, 'result': result, 'setup': setup, 'stat': stat, 'blocked': blocked, 'tabs': tabs,
            'sched': [[_tid(t), _label(l, info)] for t, l in s.trace],
            'handlers': [[cid, [info.req(r) for r in scr]] for cid, scr in hs],
@@ -452,12 +464,19 @@ def judge_case(ctx, case):
 # ----------------------------------------------------------------------------------------
 # scenarios
 # ----------------------------------------------------------------------------------------
-def scn(kind, mods, handlers, updaters, broken_logging=False):
+def scn(kind, mods, handlers, updaters, broken_logging=False, omit=None):
     case = {'mods': mods, 'nconn': len(handlers), 'handlers': {str(i + 1): h for i, h in enumerate(handlers)},
             'updaters': {str(i + 1): u for i, u in enumerate(updaters)}}
     if broken_logging:
         case['broken_logging'] = True
+    if omit:
+        case['omit'] = omit
     return kind, case
+
+
+def gen_omit(rng):
+    r = rng.random()
+    return None if r < 0.6 else ['*'] if r < 0.75 else rng.sample(FLOATS, rng.randint(1, 3))
 
 
 A, D, I, X = 'activate', 'deactivate', ['ident'], ['disconnect']
@@ -500,6 +519,14 @@ CATALOGUE = [
     scn('broken-logging-disconnect', ['T'], [[[A, 'T'], X]], [[['T', 'value', V(1)], ['T', 'a', V(2)]]], True),
     scn('broken-logging-reactivate', ['T', 'T2'], [[[A, 'T:value'], I, [A, 'T2']], [[A, None], X]],
         [[['T', 'value', V(1)], ['T2', 'value', V(2)]]], True),
+    # ---- unchanged values are not re-announced (update_unchanged='never' / a long omit_unchanged_within)
+    scn('omit-unchanged', ['T'], [[[A, 'T:value'], [D, 'T:value']]], [[['T', 'value', V(1)], ['T', 'value', V(1)], ['T', 'value', V(2)]]],
+        omit=['value']),
+    scn('omit-unchanged-initial', ['T'], [[[A, 'T']]], [[['T', 'a', V(0)], ['T', 'ab', V(0)], ['T', 'a', V(3)]]], omit=['a']),
+    scn('omit-unchanged-error-between', ['T'], [[[A, None]]], [[['T', 'value', V(1)], ['T', 'value', E(0)], ['T', 'value', V(1)]]],
+        omit=['*']),
+    scn('omit-unchanged-two-updaters', ['T'], [[[A, 'T:_a']], [[A, 'T'], [D, 'T']]], [[['T', 'a', V(2)], ['T', 'a', V(2)]], [['T', 'a', V(2)]]],
+        omit=['a', 'value']),
 ]
 
 
@@ -534,12 +561,13 @@ def gen_case(rng):
         for _ in range(rng.randint(1, 3)):
             e = E(rng.randrange(len(ERRS))) if rng.random() < 0.25 else V(rng.randint(1, 9))
             out.append([rng.choice(mods), rng.choice(FLOATS), e])
-            if e[0] == 'e' and rng.random() < 0.5:
-                out.append(list(out[-1]))
+            if rng.random() < (0.5 if e[0] == 'e' or omit else 0.1):
+                out.append(list(out[-1]))      # the same error / the same value again
         return out[:3]
+    omit = gen_omit(rng)
     handlers = [script() for _ in range(rng.choice([1, 1, 2, 2, 3]))]
     updaters = [assignments() for _ in range(rng.choice([1, 1, 2]))]
-    return scn('generated', mods, handlers, updaters, rng.random() < 0.15)
+    return scn('generated', mods, handlers, updaters, rng.random() < 0.15, omit)
 
 
 # ----------------------------------------------------------------------------------------
@@ -611,11 +639,12 @@ def gen_history(rng):
         out = []
         for _ in range(rng.randint(3, 8)):
             mn, a = (mods[0], rng.choice(hot)) if rng.random() < 0.7 else (rng.choice(mods), rng.choice(FLOATS))
-            out.append([mn, a, E(rng.randrange(len(ERRS))) if rng.random() < 0.15 else V(rng.randint(1, 9))])
+            out.append([mn, a, E(rng.randrange(len(ERRS))) if rng.random() < 0.15 else V(rng.randint(1, 3 if omit else 9))])
         return out
+    omit = gen_omit(rng)
     handlers = [script() for _ in range(rng.choice([2, 2, 3]))]
     updaters = [assignments() for _ in range(rng.choice([1, 1, 2]))]
-    kind, case = scn('history', mods, handlers, updaters, rng.random() < 0.1)
+    kind, case = scn('history', mods, handlers, updaters, rng.random() < 0.1, omit)
     order = [n for n, scr in [('h%d' % (i + 1), h) for i, h in enumerate(handlers)]
              + [('u%d' % (i + 1), u) for i, u in enumerate(updaters)] for _ in scr]
     rng.shuffle(order)
@@ -708,6 +737,8 @@ def run(ctx):
             res.count('blocked-on-' + str(b).split(':')[0])
         if not obs['blocked']:
             res.count('never-blocked')
+        if case.get('omit'):
+            res.count('omit-window.' + ('unchanged-value-dropped' if obs['stat'].get('dropped') else 'nothing-dropped'))
         if obs['preempt'] and st['bcast'] and st['snap']:
             res.nontriv(case)
             if len(res.samples) < 4 and len(obs['events']) < 16 and st['during'] and kind not in sampled:
